@@ -18,6 +18,8 @@ def fanOutOverTargets : Bool := true
 def asyncFanOutOverTargets : Bool := true
 def deadKinds : List IoKind := [.brokenPipe]
 def asyncDeadKinds : List IoKind := [.notConnected, .brokenPipe]
+def refusalKind : Option IoKind := none
+def asyncRefusalKind : Option IoKind := some .notConnected
 def policy : Policy := ⟨retryableKinds, serverRetry, otherRetry, deadKinds.headD .brokenPipe⟩
 def asyncPolicy : Policy := ⟨asyncRetryableKinds, asyncServerRetry, asyncOtherRetry, asyncDeadKinds.headD .brokenPipe⟩
 end Repe.Gen.Fleet
